@@ -1,7 +1,7 @@
 (** C02 -- parsing untrusted bytes is total and memory-safe: property theorems only.
     Each theorem is closed by [exact]/short glue from lemmas of [Proofs_C02], and followed by
     [Print Assumptions]. *)
-From Sci Require Import Wire.Views Wire.Spec_C02 Wire.Proofs_C02 Wire.Proofs_C02b Wire.Proofs_C02c.
+From Sci Require Import Wire.Views Wire.Spec_C02 Wire.Proofs_C02 Wire.Proofs_C02b Wire.Proofs_C02c Wire.Proofs_C02d.
 Local Open Scope N_scope.
 
 (** For every view type and EVERY byte string: the size a view constructor reports as the
@@ -96,18 +96,20 @@ Print Assumptions size_determining_setters_are_unsafe.
     Covered: every safe mutator of InfoFieldView, HopFieldView, OneHopPathView, the typed SCMP
     message views, StandardPathView (set_curr_*, info_field_mut / hop_field_mut setters),
     ScmpPayloadView (set_code, set_checksum, every message_mut() setter incl. payload bytes),
-    UdpDatagramView except set_length, ScionHeaderView's scalar setters except set_version.
+    UdpDatagramView except set_length, ScionHeaderView's scalar setters except set_version --
+    on the header view itself and through header_mut() of the raw, UDP and SCMP packet views
+    (where the payload's re-validation is preserved as well).
     The two exceptions are deliberate in the code: they rewrite a field the CONSTRUCTOR reads
     (version check, UDP length) but no accessor re-derives an extent from them (the view is a
     fat pointer); [Findings_C02] has the witnesses.
-    PARTIAL: ScionHeaderView::path_mut() setters and the three packet views' header_mut() /
+    PARTIAL: ScionHeaderView::path_mut() setters (also through header_mut()) and the raw view's
     payload_mut() are covered by the extent theorem and the correspondence check only. *)
 Theorem safe_setters_preserve_layout_partial :
   forall (k : vkind) (ms : list (N * N * N)) (v v' : bytes),
-    forallb (fun m => layout_preserving_op k (fst (fst m))) ms = true ->
+    forallb (fun m => layout_preserving_op_all k (fst (fst m))) ms = true ->
     bytes_ok v = true -> required_size k v = Ok (blen v) -> run_muts k ms v = Ok v' ->
     required_size k v' = Ok (blen v') /\ blen v' = blen v /\ bytes_ok v' = true.
-Proof. exact run_muts_preserve. Qed.
+Proof. exact run_muts_preserve_all. Qed.
 Print Assumptions safe_setters_preserve_layout_partial.
 
 (** Variable-offset accessors stay inside the view, for every accepted byte string:
